@@ -262,6 +262,28 @@ def discharge_assert(an, body, t, blk=None):
                 if ca_.split("@")[0] in (nconst, str(call[2].args[1]) + "_usize") and cb_.split("@")[0].startswith("core::slice::<impl [") and canon(peel(an.op(body, t["ops"][1]), widen=True)).split("(", 1)[1].rsplit(")", 1)[0].lstrip("&*") == canon(peel(call[3][0])).lstrip("&*") \
                         and body.edge_dominates((sb, none_t[0]), blk):
                     return True, "subtraction on the None edge of %s::<%s>() at %s: the slice is shorter than %s there" % (call[2].npath.rsplit("::", 1)[1], call[2].args[1], body.line(sb), call[2].args[1])
+        # `s.len() - s.iter().filter(p).count()`: an iterator chain that can only drop or keep elements of a traversal of
+        # `s` counts at most `s.len()` of them
+        def _strip(x):
+            x = peel(x, widen=True)
+            while x[0] in ("ref", "deref"):
+                x = peel(x[1], widen=True)
+            return x
+        mi, su = _strip(an.op(body, t["ops"][0])), _strip(an.op(body, t["ops"][1]))
+        if mi[0] == "call" and mi[2] is not None and re.search(r"(<impl \[T\]>|Vec(<.*>)?)::len$", mi[2].npath) and su[0] == "call" and su[2] is not None and su[2].nsyn == "std::iter::Iterator::count":
+            cur = _strip(su[3][0])
+            NEVER_LONGER = re.compile(r"^std::iter::Iterator::(filter|filter_map|take|skip|take_while|skip_while|map_while|step_by|map|enumerate|rev|copied|cloned|inspect|peekable|by_ref|fuse)$")
+            for _ in range(12):
+                if cur[0] == "mutlocal":
+                    cur = _strip(cur[2])
+                    continue
+                if cur[0] == "call" and cur[2] is not None and NEVER_LONGER.match(cur[2].nsyn or "") and cur[3]:
+                    cur = _strip(cur[3][0])
+                    continue
+                break
+            if cur[0] == "call" and cur[2] is not None and (re.search(r"<impl \[T\]>::iter$", cur[2].npath) or cur[2].nsyn == "std::iter::IntoIterator::into_iter") and cur[3] \
+                    and canon(_strip(cur[3][0])) == canon(_strip(mi[3][0])):
+                return True, "the subtrahend counts elements of a traversal of the very collection whose len() is the minuend, through adaptors that never add elements"
         # `a.len() - b.len()` where b is a tail of a (nfsa/suffix.py: remainders of parsers are tails of their input)
         if getattr(an, "prog", None) is not None:
             if not hasattr(an, "_suffix"):
@@ -638,6 +660,11 @@ def discharge_partial(an, prog, b, blk, t, c, cls, why):
         hand = [ty for ty in tys if any(pi.get("self_ty") == ty and "Ord" in str(pi.get("trait_ref", "")) and not pi.get("derived") for pi in (bb.parent_impl for bb in prog.bodies.values() if bb.parent_impl))]
         if not hand and not any(re.search(r"\bf(32|64)\b", ty) for ty in tys):
             return True, "sort key %s: Ord is derived / a std total order (no hand-written Ord impl in the crate for it)" % tys[-1:]
+    if cls == "documented" and c.nsyn in ("std::iter::Iterator::count",):
+        ty = t["argtys"][0] if t["argtys"] else ""
+        ok, w = iter_type_finite(ty)
+        if ok:
+            return True, "count over a finite std iterator (%s): it visits at most isize::MAX elements of a collection, the usize counter cannot overflow" % ty[:100]
     if cls == "documented":
         # documented '# Panics' but no discharge class known
         return False, "%s — no discharge rule for this API: %s" % (c.npath, why)
